@@ -66,3 +66,24 @@ for k, name in enumerate(KINDS):
 for g, m in (('push', PUSH), ('ins1', INS1), ('erase1', ERASE1), ('erase2', ERASE2)):
     INSTANCES.append(hist('A', g, m, 0, 4, ['thorough'], timeout=1200))
     INSTANCES.append(hist('D', g, m, 3, 4, ['thorough'], timeout=1200))
+
+
+# ---------------------------------------------------------------------------------------------------------------------
+# spill.cpp: pointer-caching (kIteratorPreferSpeed) iterator, one growing operation that spills into a never-allocated bucket
+SCEN = {'insert_count': 0, 'insert_range': 1, 'insert_ilist': 2, 'grow_default': 3, 'grow_value': 4, 'resize': 5, 'emplace_x': 6,
+        'push_x': 7, 'grow_ilist': 8, 'grow_range': 9, 'grow_gen': 10, 'grow_to_at_least': 11, 'insert_one_x': 12,
+        'insert_vrange': 13}
+STRAITS = {'def': 0, 'A': 1, 'B': 2, 'C': 3, 'E': 4}
+
+
+def spill(tr, scen, first, prefix, cnt, tiers, pos=None, timeout=600):
+    defs = {'VF_TRAITS': STRAITS[tr], 'VF_SCEN': SCEN[scen], 'VF_FIRST': first, 'VF_PREFIX': prefix, 'VF_CNT': cnt, 'VF_CV_HEADER': 64}
+    if pos is not None:
+        defs['VF_POS'] = pos
+    return {'name': 'spill_%s_%s_f%d_p%d_c%d%s' % (tr, scen, first, prefix, cnt, '' if pos is None else '_at%d' % pos),
+            'src': 'spill.cpp', 'engine': 'cbmc', 'defs': defs, 'unwind': prefix + cnt + 2, 'timeout': timeout, 'tiers': tiers,
+            'bounds': 'x'}
+
+
+INSTANCES.append(spill('def', 'insert_count', 0, 3, 2, ['dev'], pos=1))
+INSTANCES.append(spill('def', 'insert_count', 0, 3, 2, ['dev']))
